@@ -276,7 +276,7 @@ def run_random(spec, ctx):
             if st == "exc":
                 ctx.violation(f"C19/nickname-raises-{type(nick).__name__}", exc_desc(nick), {"a": a})
             elif (want_nick is not None and nick != want_nick) or \
-                    (want_nick is None and nick in ("UKSP", "GPDP", "IGKS", "EKS")):
+                    (want_nick is None and (nick in ("UKSP", "GPDP", "IGKS", "EKS") or nick != str(sa))):
                 ctx.violation("C19/wrong-nickname", f"{a}.get_nickname() = {nick!r}, expected "
                               f"{want_nick or 'the textual form'}", {"a": a}, observed=nick, expected=want_nick or str(sa))
             ctx.nontrivial(case)
@@ -320,7 +320,8 @@ def replay(wit, ctx):
         sa = S(case["a"])
         want = ref.nickname(case["a"])
         nick = sa.get_nickname()
-        if (want is not None and nick != want) or (want is None and nick in ("UKSP", "GPDP", "IGKS", "EKS")):
+        if (want is not None and nick != want) or (want is None and (nick in ("UKSP", "GPDP", "IGKS", "EKS")
+                                                                      or nick != str(sa))):
             ctx.violation(wit["signature"], f"nickname {nick!r}, expected {want}", case)
     else:
         print("replay: this witness kind is re-checked by running the check itself")
